@@ -33,9 +33,12 @@ Print Assumptions C09_reconciled_mentions.
 (* all six languages, the language-independent half: an observation in which every definition is
    declared under the table's name and every reference is a generic parameter of its owner, the
    reconciled name of a mentioned item, the sealed parent or the helper struct (c09_shape) satisfies
-   the judgement outside the recorded classes.  PARTIAL for TypeScript, Swift, Scala, Go, Python: that
-   their *_file_decls have this shape is proved for Kotlin only (C09_Kotlin); for the other five it is
-   validated by the correspondence check on every run, not yet proved. *)
+   the judgement outside the recorded classes.  That *_file_decls HAS this shape is proved for Kotlin,
+   TypeScript, Scala, Python and Swift in every configuration (C09_Kotlin .. C09_Swift below) and for Go
+   with an empty uppercase_acronyms list (C09_Go_partial).  PARTIAL (hence the name): for Go with a
+   non-empty acronym list the shape is validated by the correspondence check on every run, not proved.
+   A back end declares the <Enum><Variant>Inner entities only if c09_has_inner (all but TypeScript,
+   which inlines struct variants); the shape asks for the definitions of the declared entities only. *)
 Theorem C09_all_languages_partial :
   forall (L : lang) (pfx : str) (acrs : list str) (pd : parsed) (obs : c09_obs),
     dom_C09 L pfx pd = true -> known_C09 L pfx acrs pd = None ->
@@ -272,3 +275,37 @@ Theorem C09_Kotlin_nonvacuous :
              good_C09 Kotlin (lit "KP") Proofs.C09Witness.w_clean (c09_observe Kotlin fd) = true.
 Proof. exact Proofs.C09Witness.C09_Kotlin_nonvacuous_ex. Qed.
 Print Assumptions C09_Kotlin_nonvacuous.
+
+(* the hypotheses of the five other theorems are satisfiable on the same non-trivial program: inside
+   dom_C09, in no recorded class, generated by the model with at least 8 references (Swift under the
+   prefix OP, Go with an empty acronym list), and the judgement holds *)
+Theorem C09_TypeScript_nonvacuous :
+  Proofs.C09Witness.c09_nonvacuous TypeScript [] Proofs.C09Witness.w_clean
+    (ts_file_decls uc_exec Proofs.C09Witness.w_ts (Proofs.C09Recon.c09_reconciled Proofs.C09Witness.w_clean)) = true.
+Proof. exact Proofs.C09Witness.C09_TypeScript_nonvacuous_ex. Qed.
+Print Assumptions C09_TypeScript_nonvacuous.
+
+Theorem C09_Scala_nonvacuous :
+  Proofs.C09Witness.c09_nonvacuous Scala [] Proofs.C09Witness.w_clean
+    (sc_file_decls uc_exec Proofs.C09Witness.w_sc (Proofs.C09Recon.c09_reconciled Proofs.C09Witness.w_clean)) = true.
+Proof. exact Proofs.C09Witness.C09_Scala_nonvacuous_ex. Qed.
+Print Assumptions C09_Scala_nonvacuous.
+
+Theorem C09_Python_nonvacuous :
+  Proofs.C09Witness.c09_nonvacuous Python [] Proofs.C09Witness.w_clean
+    (py_file_decls uc_exec Proofs.C09Witness.w_py (Proofs.C09Recon.c09_reconciled Proofs.C09Witness.w_clean)) = true.
+Proof. exact Proofs.C09Witness.C09_Python_nonvacuous_ex. Qed.
+Print Assumptions C09_Python_nonvacuous.
+
+Theorem C09_Swift_nonvacuous :
+  Proofs.C09Witness.c09_nonvacuous Swift (lit "OP") Proofs.C09Witness.w_clean
+    (sw_file_decls uc_exec Proofs.C09Witness.w_sw (Proofs.C09Recon.c09_reconciled Proofs.C09Witness.w_clean)) = true.
+Proof. exact Proofs.C09Witness.C09_Swift_nonvacuous_ex. Qed.
+Print Assumptions C09_Swift_nonvacuous.
+
+Theorem C09_Go_nonvacuous :
+  Proofs.C09Witness.c09_nonvacuous Go [] Proofs.C09Witness.w_clean
+    (go_file_decls uc_exec (Proofs.C09Witness.w_go []) (Proofs.C09Recon.c09_reconciled Proofs.C09Witness.w_clean)) = true.
+Proof. exact Proofs.C09Witness.C09_Go_nonvacuous_ex. Qed.
+Print Assumptions C09_Go_nonvacuous.
+
